@@ -150,6 +150,11 @@ func isDistributive(expr *parser.Expr) bool {
 		if _, ok := distributiveAggregations[aggr.Op]; !ok {
 			return false
 		}
+		// A parameter that reads series (topk(scalar(foo), bar)) has to be
+		// evaluated over all partitions, so it cannot travel with the aggregation.
+		if aggr.Param != nil && hasSelector(aggr.Param) {
+			return false
+		}
 	case *parser.Call:
 		// These functions look at the whole input vector, not at one series:
 		// scalar() counts its elements, histogram_quantile() gathers the
